@@ -152,6 +152,13 @@ def directed(run, prop, tier, seed):
                 (f"*=0x008000\n.dw sc.in, sc.v\n.scope sc {{\nv = {a}\n.db 0\nin:\n}}\n.dw sc.in, sc.v\n", bytes([0x05, 0x80, a, 0, 0, 0x05, 0x80, a, 0])),
                 (f"*=0x008000\ntop := {a}\n.macro m() {{\n.db top\n}}\n{{\ntop := {b}\nm()\n}}\nm()\n", bytes([b, a])),
                 (f"*=0x008000\nout:\n.for i := 0, {c} {{\nloc:\n.dw loc\n}}\n.dw out\n", b"".join((0x8000 + 2 * i).to_bytes(2, "little") for i in range(c)) + b"\x00\x80"),
+                # a later scope of the same name nested in an anonymous block does not replace the top-level scope's exports
+                ("*=0x008000\n.scope h {\nstart:\nrts\n}\n{\n.scope h {\nnop\nstart:\nrtl\n}\n}\njsr h.start\n.dw h.start\n", bytes([0x60, 0xEA, 0x6B, 0x20, 0x00, 0x80, 0x00, 0x80])),
+                (f"*=0x008000\n.for k := 0, {c} {{\n.scope s {{\nl:\n.db k\n}}\n.dw s.l\n}}\n", b"".join(bytes([i]) + (0x8000 + 3 * i).to_bytes(2, "little") for i in range(c))),
+                (f"*=0x008000\n.scope s {{\nl:\n.db 0xEE\n}}\n.for k := 0, {c} {{\n.scope s {{\n.db k\nl:\n}}\n}}\n.dw s.l\n", b"\xee" + bytes(range(c)) + b"\x00\x80"),
+                # the loop variable does not leak into the scope that holds the loop
+                (f"*=0x008000\nk := 0x55\n{{\n.for k := 0, {c} {{\n.db k\n}}\n.db k\n}}\n.db k\n", bytes(range(c)) + b"\x55\x55"),
+                (f"*=0x008000\n.macro lp(k) {{\n.for k := 0, 2 {{\n.db k\n}}\n.db k\n}}\nlp({a})\n", bytes([0, 1, a])),
                 # an outer name looked up from inside a block before the block's own definition exists
                 ("*=0x008000\ndone:\nrts\n{\njmp done\nnop\ndone:\nrts\n}\n", bytes([0x60, 0x4C, 0x05, 0x80, 0xEA, 0x60])),
                 (f"*=0x008000\nv := {a}\n{{\nv = {b}\nlda v\n}}\n", bytes([0xA5, b])),
